@@ -27,4 +27,19 @@ theorem engine_order_eq : engine_order = engineOrder := by decide
 theorem engine_multicoil_eq : engine_multicoil_gt = 1 := by decide
 theorem unit_fill_eq : (unit_fill_index, unit_fill_value) = (0, 1) := by decide
 
+/-- every sensitivity-map site under `direct/nn` either calls the verified `compute_sensitivity_map`
+or normalises the map itself inside a function the oracle observes on the real module … -/
+theorem sens_sites_accounted : sens_sites.all sensSiteAccounted = true := by decide +kernel
+
+/-- … with an accepted norm plan (sqrt of the sum of squares over complex then coil axis, re-inserted
+in either order): `Props/C09.divisorShape_of_wf` and the `renorm_*` theorems apply -/
+theorem own_norm_plans_wf : own_norm_plans.all (fun p => planWf p.2) = true := by decide +kernel
+
+/-- the three translated plans are accepted plans too -/
+theorem plans_wf : planWf estimate_rss_plan && planWf estimate_norm_plan && planWf engine_norm_plan = true := by
+  decide
+
+/-- `Normalize` never rescales the sensitivity map -/
+theorem normalize_keys_ok : normalize_keys.all (fun k => normalizeKeysAllowed.contains k) = true := by decide
+
 end DirectVerif.Bridge.C09
